@@ -156,3 +156,69 @@ Theorem C18_into_loop_safe :
   forall items st, empty_or_trailing st = true -> all_ok (ops_of (into_loop st items)) = true.
 Proof. exact Proofs.into_loop_safe. Qed.
 Print Assumptions C18_into_loop_safe.
+
+(* ------------------------------------------------------------------------------------------ *)
+(** Growth round: obligations over expressions / guards re-extracted from the source on every run
+    (Gen.arith_table, Gen.fn_guards): a changed operand or a dropped guard breaks these *)
+
+(** error.rs:403 `(backtrace + 1) % 2` guarded by `if fields.len() != 2 { return None }` *)
+Theorem C18_infer_source_arith_safe :
+  forall nfields b,
+    b < nfields ->
+    match infer_source_arith nfields b with
+    | None => nfields <> 2
+    | Some (s, ops) => nfields = 2 /\ all_ok ops = true /\ s < nfields /\ s = (b + 1) mod 2
+    end.
+Proof. exact Proofs.infer_source_arith_safe. Qed.
+Print Assumptions C18_infer_source_arith_safe.
+
+(** fmt/mod.rs:496-502 Placeholder::parse_fmt_string: `n += 1` (twice) and `n - 1` over any list of formats *)
+Theorem C18_parse_fmt_counter_safe :
+  forall fs n lim, n + 2 * length fs <= lim -> all_ok (parse_fmt_counter lim n fs) = true.
+Proof. exact Proofs.parse_fmt_counter_safe. Qed.
+Print Assumptions C18_parse_fmt_counter_safe.
+
+(** parsing.rs:144-163 balanced_pair: `count -= 1` / `count += 1` under `while count != 0`, any token sequence *)
+Theorem C18_balanced_pair_arith_safe :
+  forall steps count lim, count + length steps <= lim -> all_ok (balanced_pair_x lim count steps) = true.
+Proof. exact Proofs.balanced_pair_x_safe. Qed.
+Print Assumptions C18_balanced_pair_arith_safe.
+
+(** try_from.rs:116 `inc += 1` over the variants; from.rs:223 `i += 1` over the fields *)
+Theorem C18_try_from_counter_safe :
+  forall vs inc lim, inc + length vs <= lim -> all_ok (try_from_counter lim inc vs) = true.
+Proof. exact Proofs.try_from_counter_safe. Qed.
+Print Assumptions C18_try_from_counter_safe.
+
+Theorem C18_from_forward_counter_safe :
+  forall n i lim, i + n <= lim -> all_ok (from_forward_counter lim i n) = true.
+Proof. exact Proofs.from_forward_counter_safe. Qed.
+Print Assumptions C18_from_forward_counter_safe.
+
+(** utils.rs:879-1042 parse_punctuated_nested_meta (the attribute parser behind every State-based derive) is
+    total and panic-free for every list of nested metas, wrapper and allowed-parameter list, and calls itself at
+    most one level deep; utils.rs:813-877 get_meta_info likewise (at most two nested invocations) *)
+Theorem C18_meta_parser_safe :
+  forall allowed w ms,
+    all_ok (p_ops_of (ppnm_list allowed w ms)) = true /\ p_depth (ppnm_list allowed w ms) <= 1.
+Proof. exact Proofs.meta_parser_safe. Qed.
+Print Assumptions C18_meta_parser_safe.
+
+Theorem C18_get_meta_info_total :
+  forall allowed attrs,
+    all_ok (p_ops_of (get_meta_info allowed attrs)) = true /\ p_depth (get_meta_info allowed attrs) <= 2.
+Proof. exact Proofs.get_meta_info_total. Qed.
+Print Assumptions C18_get_meta_info_total.
+
+(** into.rs:476-626 check_legacy_syntax is panic-free on every list of top-level metas (and on unparsable tokens) *)
+Theorem C18_check_legacy_syntax_safe :
+  forall nfields metas, all_ok (snd (check_legacy_syntax nfields metas)) = true.
+Proof. exact Proofs.check_legacy_syntax_safe. Qed.
+Print Assumptions C18_check_legacy_syntax_safe.
+
+(** the type walkers (contains_generics, is_type_parameter_used_in_type, the generics_search visitor) nest their
+    calls no deeper than the type is nested, whichever children they choose to visit: stack use is bounded by the
+    nesting depth of the input, which syn's own parser has already recursed through *)
+Theorem C18_recursion_depth_le_nesting : forall sel t, call_depth sel t <= ty_depth t.
+Proof. exact Proofs.call_depth_le_ty_depth. Qed.
+Print Assumptions C18_recursion_depth_le_nesting.
